@@ -1,5 +1,6 @@
 """C12 - stopping the server reaps its children and every parent finds out."""
 import ast
+import re
 
 from ..astutil import (facts_at, AnalysisError, dotted, calls_in, last_attr, receiver, norm, is_name, walk_local, is_self_attr,
                        loc, short, parent_map, names_in)
@@ -114,13 +115,29 @@ def run(ctx):
     loops = [n for st in t.finalbody for n in walk_local(st) if isinstance(n, ast.For)]
     covered = set()
 
+    def local_defs():
+        # name -> defining expression, for plain and tuple assignments of the finally block (`a, self.x = self.x, []` defines a as self.x)
+        out = {}
+        for st in t.finalbody:
+            for x in walk_local(st):
+                if isinstance(x, ast.Assign):
+                    for tg in x.targets:
+                        if isinstance(tg, ast.Name):
+                            out[tg.id] = x.value
+                        if isinstance(tg, ast.Tuple) and isinstance(x.value, ast.Tuple) and len(tg.elts) == len(x.value.elts):
+                            for a, b in zip(tg.elts, x.value.elts):
+                                if isinstance(a, ast.Name):
+                                    out[a.id] = b
+        return out
+
     def iter_text(lp):
-        # follow one local: `closing = list(chain(self.children, ...))` ; `for child in closing`
-        if isinstance(lp.iter, ast.Name):
-            for st in t.finalbody:
-                if isinstance(st, ast.Assign) and is_name(st.targets[0], lp.iter.id):
-                    return norm(st.value)
-        return norm(lp.iter)
+        # follow locals (snapshots): `closing = list(chain(self.children, ...))`, `children, self.children = self.children, []` ; `for child in chain(children, ...)`
+        defs = local_defs()
+        txt = norm(lp.iter)
+        for _ in range(3):
+            for nm, ex in defs.items():
+                txt = re.sub(r'(?<![\w.])' + re.escape(nm) + r'\b', '(' + norm(ex) + ')', txt)
+        return txt
     for lp in loops:
         for r in regs:
             if f'self.{r}' in iter_text(lp):
@@ -131,7 +148,8 @@ def run(ctx):
         first_loop_idx = min(t.finalbody.index(st) for st in t.finalbody if any(lp is st or any(lp is x for x in ast.walk(st)) for lp in reap))
         early = [c for i, st in enumerate(t.finalbody) if i < first_loop_idx for c in calls_in(st)
                  if last_attr(c) in ('clear', 'pop', 'popitem') and (receiver(c) or '') in tuple(f'self.{r}' for r in regs)]
-        early += [st for i, st in enumerate(t.finalbody) if i < first_loop_idx and isinstance(st, ast.Assign) and any(is_self_attr(x) and x.attr in regs for x in st.targets)]
+        early += [st for i, st in enumerate(t.finalbody) if i < first_loop_idx and isinstance(st, ast.Assign) and any(
+            is_self_attr(x) and x.attr in regs for tg in st.targets for x in (tg.elts if isinstance(tg, ast.Tuple) else [tg]))]
         ctx.check('R1', 'the registries are emptied only after every child has been reaped', not early, 'RemoteServer.run', 'registry-cleared-before-reaping',
                   'the shutdown path empties children/contexts before it has terminated them: a SIGTERM that arrives while the server is still reaping (e.g. the forced kill of '
                   'server.terminate(timeout) when a child needs its whole grace period) finds nothing to kill - the remaining children outlive the server and their parents block',
